@@ -133,6 +133,7 @@ func execMatchCfg(it []hx.Sx) hx.Sx {
 		}
 	}
 	bits := make([]hx.Sx, 0, len(evs))
+	snap := ruleSnap(conds) // rule immutability (shared.go): the conditions the reader returned, before any evaluation
 	for _, ev := range evs {
 		root := decode(ev)
 		if root == nil {
@@ -145,6 +146,9 @@ func execMatchCfg(it []hx.Sx) hx.Sx {
 			return hx.L(hx.I(3), hx.S(p))
 		}
 		bits = append(bits, hx.Bool(res))
+	}
+	if now := ruleSnap(conds); now != snap {
+		return obsMutated("match conditions changed by evaluating them: read "+snap+" now "+now, bits)
 	}
 	return hx.L(hx.L(trans...), hx.L(bits...))
 }
